@@ -904,6 +904,8 @@ class SetIndex(BaseSetIndexSortValues):
                 self, parent, dependents, additional_columns=addition_columns
             )
             columns = _convert_to_list(columns)
+            # other consumers (e.g. an Assign) may report columns they create
+            columns = [col for col in self.frame.columns if col in columns]
             if self.frame.columns == columns:
                 return
             return type(parent)(
